@@ -177,6 +177,10 @@ def run(tier, replay=None):
     # values built by the compile-time macros belong to this property's domain as well: the macro witnesses of C16 (cached per tree)
     from . import c16
     c16.witness_family(rep, tier)
+    # values produced by maximize / minimize are built from table integers through the unchecked constructors: the representation behind a
+    # string is unique only if every stored integer decodes to canonical text and no stored language is the text "und" (shared with C18)
+    from . import tables
+    tables.likely(common.program('K1'), rep)
     rep.explanation = ('x == y iff to_string equal, decided through its structural preconditions: (1) every comparison/hash impl of the ten value types is the derived, field-wise one, so Eq, Ord and Hash '
                        'cannot disagree with each other; (2) fields are declared in the order language, script, region, variants (and id, extensions), which is the order the property states; '
                        '(3) the representation behind one canonical string is unique: ordered collections are sorted/duplicate-free, "no variants" is always None, the empty language is always None '
